@@ -560,3 +560,21 @@ mod test {
         assert!((allocator.to_vec().len() as u64) <= buddy_state_bytes);
     }
 }
+
+// Verification hook H3 (read-only, add-only): see page_store/verif/snapshot.rs
+#[cfg(redb_verif)]
+impl BuddyAllocator {
+    /// every free block as (index at that order, order), by ascending order then index
+    pub(crate) fn verif_free_blocks(&self) -> Vec<(u32, u8)> {
+        let mut result = vec![];
+        for order in 0..=self.max_order {
+            let bitmap = self.get_order_free(order);
+            for i in 0..bitmap.len() {
+                if !bitmap.get(i) {
+                    result.push((i, order));
+                }
+            }
+        }
+        result
+    }
+}
